@@ -88,6 +88,9 @@ fn main() {
         std::process::exit(2);
     }
     sut::install_panic_hook();
+    if !matches!(argv[1].as_str(), "selfcheck" | "c02-digest-server" | "c02-one" | "miri-slice") && ctx.replay.is_none() {
+        refcodec::evidence::silence_stdout();
+    }
     let code = match argv[1].as_str() {
         "C01" | "C03" | "C13" | "C14" => codecprops::run(&ctx, &argv[1]),
         "C02" => c02::run(&ctx),
